@@ -11,6 +11,7 @@ import (
 	"reflect"
 	"strconv"
 	"strings"
+	"time"
 
 	"github.com/hashicorp/go-bexpr/grammar"
 )
@@ -65,10 +66,23 @@ func bxvBudgetCases(fails *[]bxvFailure) int {
 	}
 	// exponential input is rejected within the budget
 	deep := strings.Repeat("(", 40) + "a == 1" + strings.Repeat(")", 40)
-	_, e, steps := grammar.ParseCounted([]byte(deep), grammar.MaxExpressions(100000))
+	type r struct {
+		e     error
+		steps uint64
+	}
+	done := make(chan r, 1)
+	go func() {
+		_, e, steps := grammar.ParseCounted([]byte(deep), grammar.MaxExpressions(100000))
+		done <- r{e, steps}
+	}()
 	n++
-	if !isMax(e) || steps > 100001 {
-		*fails = append(*fails, bxvFailure{Kind: "mismatch", Expr: "40 nested parentheses", Datum: "budget 100000", Got: fmt.Sprintf("err=%v steps=%d", e, steps), Want: "max-expressions error within 100001 steps"})
+	select {
+	case x := <-done:
+		if !isMax(x.e) || x.steps > 100001 {
+			*fails = append(*fails, bxvFailure{Kind: "mismatch", Expr: "40 nested parentheses", Datum: "budget 100000", Got: fmt.Sprintf("err=%v steps=%d", x.e, x.steps), Want: "max-expressions error within 100001 steps"})
+		}
+	case <-time.After(20 * time.Second):
+		*fails = append(*fails, bxvFailure{Kind: "mismatch", Expr: "40 nested parentheses", Datum: "budget 100000", Got: "the parse was still running after 20s: the budget does not bound the parser's work", Want: "max-expressions error within 100001 steps"})
 	}
 	return n
 }
